@@ -838,7 +838,7 @@ func ruleRevBareKey(c *Ctx) []Obligation {
 		case *ssa.FieldAddr, *ssa.Field:
 			owner, f, _ := fieldOf(y)
 			if f != nil && f.Name() == "Name" && owner != nil {
-				switch owner.Obj().Name() {
+				switch objName(owner.Obj()) {
 				case "Module", "BelongsTo", "Include", "Import":
 					return true
 				}
@@ -849,7 +849,7 @@ func ruleRevBareKey(c *Ctx) []Obligation {
 	isModEntryName := func(x ssa.Value) bool {
 		// ToEntry(<module>).Name
 		owner, f, base := fieldOf(x)
-		if f == nil || owner == nil || owner.Obj().Name() != "Entry" || f.Name() != "Name" {
+		if f == nil || owner == nil || objName(owner.Obj()) != "Entry" || f.Name() != "Name" {
 			return false
 		}
 		return derivesFrom(base, func(y ssa.Value) bool {
